@@ -29,7 +29,11 @@ def check(ctx):
         ro = V.need(V.call_nodes(reopen), "%s() in %s.%s" % (reopen, cn, meth))
         need = {recv + ".reconnectable", recv + ".timeout > 0.0", recv + ".timer.expired"}
         rs = V.call_nodes(restarts)
-        ok = all(need <= V.facts(r) for r in ro)
+        ok = all(need <= V.symfacts(r) for r in ro)
+        if cn == "TcpClientStack":
+            # a lost connection only sets .cutoff (the transport keeps .connected True): the reconnect arm must be reachable
+            # while the handler still reports connected
+            ok = ok and not any(("not %s.connected" % recv) in V.symfacts(r) for r in ro)
         ok = ok and bool(rs) and all(V.cfg.always_reaches([r.id], [x.id for x in rs]) for r in ro)
         ctx.check(ok, "T1-reopen", f, "%s.%s: %s() only if reconnectable and timeout elapsed, then timer restarted" % (cn, meth, reopen),
                   "a client that is not reconnectable must never reopen on its own, and a reconnectable one must wait its "
@@ -48,25 +52,39 @@ def check(ctx):
                       "reopens and reconnects on the next service call even when it is not reconnectable")
     cs = ctx.cls("tcp.clienting", "Client").own_method("serviceConnect")
     V = FuncView(ctx, cs)
-    nt = V.tests(lambda t: src(t) == "not self.connected")
+    def attempted(W, cond, calls):
+        """the connect attempt is made exactly when `cond` (not connected) holds at the first test of it: guarded by it and
+        reached on every path leaving that test on the edge where it holds"""
+        pts = W.ptests(cond)
+        if not pts or not calls:
+            return False
+        t, lab = pts[0]
+        start = [b for b, l in W.cfg.succ[t.id] if l == lab]
+        via = [c.id for c in calls]
+        escaped = W.cfg.reachable(start, removed_nodes=via) if start else {W.cfg.exit.id}
+        first_pass = all(s_ in via for s_ in start)
+        return W.dominated_by_edge(calls, t, lab) and bool(start) and (first_pass or W.cfg.exit.id not in escaped) \
+            and W.cfg.exit.id not in W.cfg.reachable(W.cfg.entry.id, removed_nodes=[t.id])
     cn_ = V.call_nodes("self.connect")
-    ok = bool(nt) and bool(cn_) and V.dominated_by_edge(cn_, nt[0], "T") and V.cfg.always_reaches(
-        [nt[0].id], [c.id for c in cn_] + [b for b, lab in V.cfg.succ[nt[0].id] if lab == "F"])
+    ok = attempted(V, "not self.connected", cn_)
     rets = [n for n in V.cfg.nodes if n.kind == "return"]
     ok = ok and bool(rets) and all(src(r.ast.value) == "self.connected" for r in rets)
     ctx.check(ok, "T2-attempt", cs, "Client.serviceConnect: if not connected: connect() ...; return self.connected", "")
     pa = ctx.cls("http.clienting", "Patron").own_method("serviceAll")
     P = FuncView(ctx, pa)
-    nt = P.tests(lambda t: src(t) == "not self.connector.connected")
     sc = P.call_nodes("self.connector.serviceConnect")
-    ctx.check(bool(nt) and bool(sc) and P.dominated_by_edge(sc, nt[0], "T") and P.always_then([P.cfg.entry], nt), "T2-attempt", pa,
+    okp = attempted(P, "not self.connector.connected", sc)
+    if not okp:      # the connector may be held in a local
+        for nm in {x.id for n in P.cfg.nodes for x in P.cfg.walk_node(n) if isinstance(x, ast.Name) and isinstance(x.ctx, ast.Store)}:
+            okp = okp or attempted(P, "not %s.connected" % nm, sc)
+    ctx.check(okp, "T2-attempt", pa,
               "Patron.serviceAll: every call attempts serviceConnect() while not connected", "")
     ts = ctx.cls("stacking", "TcpClientStack").own_method("serviceConnect")
     T = FuncView(ctx, ts)
     sc = T.call_nodes("self.handler.serviceConnect")
     st = [n for n in T.cfg.nodes if isinstance(n.ast, ast.Assign) and src(n.ast.targets[0]) == "self.local.ha"]
-    ct = T.tests(lambda t: src(t) == "self.handler.connected")
-    ok = bool(sc) and bool(st) and bool(ct) and src(st[0].ast.value) == "self.handler.ca" and T.dominated_by_edge(st, ct[0], "T") and T.dominated(st, sc)
+    ok = bool(sc) and bool(st) and src(T.sym(st[0].ast.value, st[0])) == "self.handler.ca" and T.dominated(st, sc) and \
+        all("self.handler.connected" in T.symfacts(x) for x in st)
     ctx.check(ok, "T9-accept", ts, "TcpClientStack.serviceConnect: once connected local.ha = handler.ca", "the stack reports the live socket's local address")
     ac = ctx.cls("tcp.clienting", "Client").own_method("accept")
     A = FuncView(ctx, ac)
